@@ -84,6 +84,13 @@ def s12_layer_frame(chk: Check, proj: Project, w) -> None:
             chk.ob("S12", "slots:FillNode._extract_fill:capture-visits-every-layer", fm.loc(jumps[0]) if jumps else fm.loc(cap), not jumps,
                    "the capture loop has no break / continue / return: every layer between the marker and the fill is looked at" if not jumps else
                    f"`{short(enclosing_stmt(jumps[0]))}` cuts the capture short: scopes nested INSIDE a {{% for %}} ({{% for %}}{{% with x=.. %}}{{% fill %}}{{{{ x }}}}) are no longer captured and the fill renders without them")
+    fl_loops = [lp for lp in ast.walk(ff) if isinstance(lp, ast.For) and any(isinstance(c_, ast.Compare) and isinstance(c_.left, ast.Constant) and c_.left.value == "forloop" for c_ in ast.walk(lp))]
+    if fl_loops:
+        it = fl_loops[0].iter
+        whole = norm(it).endswith(".dicts")
+        chk.ob("S12", "slots:FillNode._extract_fill:loop-state-captured-from-all-layers", fm.loc(fl_loops[0]), whole,
+               f"the loop layers are collected from the whole `{norm(it)}`" if whole else
+               f"the loop layers are collected from `{norm(it)}` only: loops opened AROUND the component tag are no longer captured, and a fill whose context is rebuilt later (the dynamic component's target, isolated mode, inside another component) renders the loop variable / forloop as empty")
     rm, rf = proj.func("slots", "_nodelist_to_slot_render_func.render_func")
     chk.analysed(fkey(rm, rf))
     iv = local_from(rf, lambda v: isinstance(v, ast.Call) and last_attr(v.func) == "get_last_index" and "_COMPONENT_CONTEXT_KEY" in norm(v))
